@@ -18,7 +18,10 @@ from checks import brokerlib, sessionlib
 
 def cast(nodes_of):
     return {"nodes": sorted(set(nodes_of.values())), "ka": 10,
-            "conns": {c: {"n": n, "client": "same", "filters": [{"f": ["k", str(c)], "q": 1}, {"f": ["k", "#"], "q": 0}]} for c, n in nodes_of.items()},
+            # every session carries a will of its own (a displaced session's will may be published when it ends - once)
+            "conns": {c: {"n": n, "client": "same", "filters": [{"f": ["k", str(c)], "q": 1}, {"f": ["k", "#"], "q": 0}],
+                          "will": {"t": ["w", "same"], "p": "will-of-c%d" % c, "q": c % 2, "r": False}} for c, n in nodes_of.items()},
+            "watchers": [{"c": 7, "n": 1, "user": "", "fs": [{"f": ["w", "#"], "q": 1}]}],
             "publishers": [{"c": 8, "n": 1, "topics": [["k", "1"], ["k", "2"], ["k", "3"]], "q": 1}]}
 
 
@@ -78,6 +81,35 @@ def late_news_family():
     return out
 
 
+def third_node_family():
+    """Three nodes.  The client is on node 1, reconnects to node 2 (which has merged the old session's record); node 3 receives
+    node 2's broadcasts (removal of the old record, creation of the new one) BEFORE node 1's (creation of the old record, its
+    subscription).  Once everything is delivered node 3 too must resolve the client identifier to the new session."""
+    out = []
+    for will in (False, True):
+        for sub in (False, True):
+            for order in ((2, 1), (1, 2)):
+                c1 = {"op": "connect", "c": 1, "n": 1, "client": "same", "ka": 10}
+                if will:
+                    c1["will"] = {"t": ["w", "same"], "p": "will-old", "q": 1, "r": False}
+                ops = [{"op": "gossip", "mode": "manual"},
+                       {"op": "connect", "c": 8, "n": 3, "client": "pub8", "user": "", "ka": 60000},
+                       {"op": "collect"}, {"op": "deliverfrom", "from": 3, "to": 1}, {"op": "deliverfrom", "from": 3, "to": 2},
+                       c1]
+                if sub:
+                    ops.append({"op": "sub", "c": 1, "id": 4, "fs": [{"f": ["k", "#"], "q": 0}]})
+                ops += [{"op": "collect"}, {"op": "deliverfrom", "from": 1, "to": 2},
+                        {"op": "connect", "c": 2, "n": 2, "client": "same", "ka": 10},
+                        {"op": "collect"}]
+                for frm in order:                                  # node 3 hears node 2 first (the case) or node 1 first (the control)
+                    ops.append({"op": "deliverfrom", "from": frm, "to": 3})
+                ops += [{"op": "deliverfrom", "from": 2, "to": 1},
+                        {"op": "gossip", "mode": "auto"}, {"op": "quiesce"},
+                        {"op": "send", "c": 1, "kind": "PINGREQ"}, {"op": "send", "c": 2, "kind": "PINGREQ"}, {"op": "quiesce"}]
+                out.append({"nodes": [1, 2, 3], "ops": ops})
+    return out
+
+
 def check(run):
     thorough = run.tier == "thorough"
     run.model_check("MC_Session", "MC_Session_takeover.cfg")
@@ -98,6 +130,7 @@ def check(run):
         scns += [sessionlib.build(h, c) for h in hs[::step]]
     scns += stale_tombstone_family()
     scns += late_news_family()
+    scns += third_node_family()
     run.log("%d takeover scripts" % len(scns))
     tpath, crashes = brokerlib.execute(run, scns, "c12", shards=14, timeout=3000)
     if crashes:
@@ -112,7 +145,7 @@ def check(run):
         "rule": "scenario = TLC-generated script with >= 2 connections sharing one client id (pairs on one node, pairs on two nodes, chains of three over "
                 "two nodes; depth 5-6; connect / subscribe / ping / publish / DISCONNECT / close in every order, sampled evenly), each ending with a "
                 "PINGREQ of every remaining connection and a probe of all nodes; plus 4 hand-written schedules with a tombstone in flight and 18 in which the takeover happens while gossip is held back and the old "
-                "session ends (close / DISCONNECT / not at all) before its node hears of it, released in order or newest first",
+                "session ends (close / DISCONNECT / not at all) before its node hears of it, released in order or newest first; 8 three-node schedules in which the third node hears of the takeover before it hears of the old session",
         "events_validated": nev, "trace_spec_states": tstates, "rejections": len(rejected),
         "samples": [scns[0]["ops"][2:], scns[len(scns) // 2]["ops"][2:], scns[-1]["ops"]],
     }, ["C12's proviso: when a connection is accepted, the accepting node has merged the record of every earlier session of that client id "
